@@ -50,9 +50,9 @@ $(B)/T/asl_%.o: $(B)/stamps/src_%.sha $(B)/stamps/headers.sha | $(B)/T
 	$(CXX) $(TFLAGS) -c $(REPO)/src/$*.cpp -o $@
 
 # ---- scenarios (instrumented like the library: they instantiate asl's header-only code)
-$(B)/A/%.o: scen/%.cpp $(B)/stamps/headers.sha $(wildcard scen/*.h sim/*.h driver/*.h) | $(B)/A
+$(B)/A/%.o: scen/%.cpp $(B)/stamps/headers.sha $(wildcard scen/*.h scen/*.inc scen/ref/*.h sim/*.h driver/*.h) | $(B)/A
 	$(CXX) $(AFLAGS) -I. -c $< -o $@
-$(B)/T/%.o: scen/%.cpp $(B)/stamps/headers.sha $(wildcard scen/*.h sim/*.h driver/*.h) | $(B)/T
+$(B)/T/%.o: scen/%.cpp $(B)/stamps/headers.sha $(wildcard scen/*.h scen/*.inc scen/ref/*.h sim/*.h driver/*.h) | $(B)/T
 	$(CXX) $(TFLAGS) -I. -c $< -o $@
 
 # ---- runtime and driver: never instrumented
